@@ -15,6 +15,7 @@ from liquid2 import TokenType
 from liquid2 import is_token_type
 from liquid2.ast import Partial
 from liquid2.ast import PartialScope
+from liquid2.builtin.expressions import identifier_as_source
 from liquid2.builtin import Identifier
 from liquid2.builtin import Literal
 from liquid2.builtin import StringLiteral
@@ -69,7 +70,7 @@ class RenderNode(Node):
                 var = f" with {self.var}"
 
         if self.alias:
-            var += f" as {self.alias}"
+            var += f" as {identifier_as_source(self.alias)}"
         if self.args:
             var += ","
         args = " " + ", ".join(str(arg) for arg in self.args) if self.args else ""
